@@ -666,7 +666,7 @@ pub fn groups(prop: &str, tier: &str) -> Vec<Group> {
             specs.push(Spec::single(vec![rule(Re::Any, Kind::Skip)], "any_only"));
             specs.push(Spec::single(vec![rule(plus(Re::Any), Kind::Act(D_CONTINUE))], "any_only"));
             let mut p = plan("C09", Proj::Progress, 5, 1);
-            let long = if q { 20_000 } else { 100_000 };
+            let long = if q { 20_000 } else { 30_000 };
             p.extra_inputs = vec![
                 "a".repeat(long),
                 "x".repeat(long),
